@@ -4,43 +4,75 @@
     re-extracted from the headers' macro invocations and compared (a difference is MODEL-DRIFT);
     specs/LiftedOps.tla is generated from the same table (`python3 -m checks.c04 gen`).
  1. TLC: Lifted.tla (L1) multi-step exploration, theorems of the spec itself (propagation, never
-    evaluated, equality laws, select / value_or laws).
+    evaluated, equality laws, select / value_or laws, coherence of registers that share a cell).
  2. S->C: TLC enumerates every single call: operation x kind pattern x presence pattern x value set
-    (Lifted_s2c*.cfg); each transition is replayed as one call on real xoptional / xmasked_value
-    objects over the counting operand type Probe.  TLC simulation walks add histories.
+    (Lifted_s2c*.cfg: the integer algebra, reference closures, real doubles incl. NaN / infinities /
+    inexact results, masked optionals, two closures over one referent); each transition is replayed as
+    one call on real xoptional / xmasked_value objects over the counting operand type Probe.  TLC
+    simulation walks add histories.
  3. C->S: seeded random expression sequences over the registers (all kinds, results stored back,
-    extreme values, division by a missing zero).
+    extreme values, division by a missing zero, aliasing registers).
  Every recorded trace is validated by TLC against LiftedTrace.tla (L1 is the oracle): has/visible,
- value, evaluation-counter delta, all registers and the referents of reference closures.
+ value, evaluation-counter delta, all registers, the referents of reference closures and which
+ registers share a cell.
+
+ Robustness (round 2): the harness is built first as one program; if it does not build against the
+ tree, every overload family is compiled as its own small probe (a family that does not compile is a
+ VIOLATION naming the overload), and a degraded harness without those operations runs the rest.  A
+ crash / sanitizer report / CPU-limit ends an execution with a Crash event and the driver is restarted
+ for the remaining executions.  A rejection at a housekeeping call is advisory and validation resumes
+ behind it (Sync) instead of skipping the execution.  Reported violations are re-executed once.
 """
-import json, os, random, re, sys
+import json, os, random, re, subprocess, sys, threading
 from vlib import core, tlaval
 from vlib.core import MachineryError
 
 OPS_DEF = os.path.join(core.HARNESS, "lifted", "ops.def")
 OPS_TLA = os.path.join(core.SPECS, "LiftedOps.tla")
 DRIVER = os.path.join(core.HARNESS, "lifted", "driver.cpp")
+NPARTS = 8
 M = 46000
 
 OPT_KINDS = ("opt", "optref", "optcr", "optvr", "dopt")
-MSK_KINDS = ("masked", "mref", "dmasked")
-PLAIN_KINDS = ("plain", "int", "dplain")
-D_KINDS = ("dplain", "dopt", "dmasked")            # double-valued registers (real IEEE operands incl. NaN)
+MSK_KINDS = ("masked", "mref", "dmasked", "mo")
+PLAIN_KINDS = ("plain", "int", "dplain", "po")
+D_KINDS = ("dplain", "dopt", "dmasked")            # double-valued registers (real IEEE operands)
+MIX_KINDS = ("mo", "po")                           # xmasked_value<xoptional<T>> and the bare xoptional<T> beside it
 NANV = 2147480000                                  # how a NaN is written in scripts and traces
-WRITABLE = ("opt", "optref", "optvr", "masked", "mref", "dopt", "dmasked")
-# the operations dispatched to double operands (Lifted.tla: DFuns)
-D_UN = ["pos", "neg", "lognot", "abs", "fabs", "ceil", "floor", "trunc", "round", "nearbyint", "rint", "isnan", "isinf", "isfinite"]
-D_BIN = ["plus", "minus", "mul", "lt", "le", "gt", "ge", "fmax", "fmin"]
-D_ASG = [("plus_eq", "plus"), ("minus_eq", "minus")]
+NAV = 2147470000                                   # a mo / po register whose inner optional is missing
+DTAB = list(range(1000000, 1000020))               # indices into the harness's table of remarkable doubles
+WRITABLE = ("opt", "optref", "optvr", "masked", "mref", "dopt", "dmasked", "mo")
+D_NOFUNS = {"mod", "band", "bor", "bxor", "bitnot", "mod_eq", "band_eq", "bor_eq", "bxor_eq"}
 VALREF = ("optref", "optcr", "optvr", "mref")
+FLAGREF = ("optref", "optcr", "mref")
 # the constructor used to put a register of a given kind into a given abstract state
 CANON_HOW = {"plain": "plain", "int": "int", "opt": "opt2", "optref": "optref", "optcr": "optcr", "optvr": "optvr",
-             "masked": "masked2", "mref": "mref", "dplain": "dplain", "dopt": "dopt2", "dmasked": "dmasked2"}
-ALT_HOW = {"opt": ["opt2", "optional_vv"], "optref": ["optref", "optional_rr"], "optvr": ["optvr", "optional_rv"],
+             "masked": "masked2", "mref": "mref", "dplain": "dplain", "dopt": "dopt2", "dmasked": "dmasked2",
+             "mo": "mo2", "po": "po2"}
+ALT_HOW = {"opt": ["opt2", "optional_vv", "opt_from_ref", "opt_from_cref", "opt_from_vr", "opt_from_int", "opt_from_intmv"],
+           "optref": ["optref", "optional_rr"], "optvr": ["optvr", "optional_rv"],
            "masked": ["masked2", "masked_value2"], "mref": ["mref", "masked_value_rr"]}
-# calls whose semantics is documented class behaviour, not part of the property sentence: a rejection
-# at one of these events is advisory (MODEL-DRIFT), never a VIOLATION
-ADVISORY_OPS = {"Reset", "Load", "Get", "SetFlag", "SetVal", "Poke", "AssignVal", "AssignReg", "Swap"}
+HOUSE_OPS = {"Get", "SetFlag", "SetVal", "AssignVal", "AssignReg", "Swap"}     # (Get member stays available without them)
+MAX_VIOLATIONS = 12       # a pervasive defect: this many rejections with replays are enough
+MAX_EXPLAIN = 12
+CONFIRM = 4
+
+
+def is_advisory(evj):
+    """Calls whose semantics is documented class behaviour, not part of the property sentence: a rejection at
+    one of these events is advisory (MODEL-DRIFT), never a VIOLATION.  Verdict-relevant are the lifted calls
+    the statement names (operators, comparisons, compound assignments, lifted functions, select, value_or) and
+    what defines "an operand that is present / missing and holds v": construction from (value, flag), the
+    member accessors has_value() / visible() / value(), and the caller's own writes to the referents of a
+    reference closure."""
+    op, a = evj.get("op"), evj.get("a", {})
+    if op in ("SetFlag", "SetVal", "AssignVal", "AssignReg", "Swap"):
+        return True
+    if op == "Load":
+        return a.get("how") not in CANON_HOW.values()
+    if op == "Get":
+        return a.get("path") != "member"
+    return False
 
 
 # ------------------------------------------------------------------ the operation table
@@ -85,7 +117,10 @@ def table_vs_headers(t, include):
             "cmpop": sorted(x[1] for x in t["CMPOP"]), "asgop": sorted(x[1] for x in t["ASGOP"]),
             "ufun": [x[0] for x in t["UFUN"]], "upred": [x[0] for x in t["UPRED"]],
             "bfun": [x[0] for x in t["BFUN"]], "tfun": [x[0] for x in t["TFUN"]]}
-    opt, msk = extract_from_headers(include)
+    try:
+        opt, msk = extract_from_headers(include)
+    except Exception as e:          # (advisory step: a tree it cannot read is not a machinery failure of the check)
+        return ["the headers could not be scanned for their operation list: %s" % e]
     diffs = []
     for name, got in (("xoptional.hpp", opt), ("xmasked_value.hpp", msk)):
         for key, w in want.items():
@@ -123,7 +158,7 @@ def gen_ops_tla(t):
         "Code      == [" + ", ".join("%s |-> %s" % c for c in code) + "]",
         "=============================================================================",
     ]
-    out, cur = [], ""
+    out = []
     for l in lines:           # wrap long lines at commas (TLA+ has no line-length limit, but keep it readable)
         while len(l) > 118:
             cut = l.rfind(", ", 0, 118) + 1
@@ -141,7 +176,7 @@ def ev(op, **a):
 def load_event(i, reg, rnd=None):
     """The Load that puts register i into abstract state reg = {kind, has, val}."""
     how = CANON_HOW[reg["kind"]]
-    if rnd is not None and reg["kind"] in ALT_HOW:
+    if rnd is not None and reg["kind"] in ALT_HOW and reg["val"] != NAV:
         how = rnd.choice(ALT_HOW[reg["kind"]])
     return ev("Load", i=i, how=how, has=bool(reg["has"]), v=reg["val"])
 
@@ -154,41 +189,61 @@ def emitted(out):
     return res
 
 
-MUTATING = {"Compound", "SetFlag", "SetVal", "Poke", "AssignVal", "AssignReg", "Swap", "Load"}
+MUTATING = {"Compound", "SetFlag", "SetVal", "Poke", "AssignVal", "AssignReg", "Swap", "Load", "Alias"}
 
 
 def edge_scripts(edges, nreg, rnd, per_exec=40):
-    """Every call TLC enumerated, grouped by source register file.  Before a call the registers that are
-    not (known to be) in the source state are loaded; calls that only compute come first, after a mutating
-    call the touched registers are loaded again.  A Reset starts a new execution every per_exec sources."""
+    """Every call TLC enumerated, grouped by source register file (registers + which of them share a cell).
+    Before a call the registers that are not (known to be) in the source state are loaded; calls that only
+    compute come first, after a mutating call the touched registers are loaded again.  A Reset starts a new
+    execution every per_exec sources."""
     by_src = {}
     for e in edges:
-        key = json.dumps(e["p"], sort_keys=True)
+        key = json.dumps([e["p"], e.get("va"), e.get("fa")], sort_keys=True)
         by_src.setdefault(key, []).append(e["l"])
     lines, taken = [], 0
     plain0 = {"kind": "plain", "has": True, "val": 0}
     cur = None
     for n, key in enumerate(sorted(by_src)):
-        regs = json.loads(key)
+        regs, va, fa = json.loads(key)
         regs = regs + [plain0] * (nreg - len(regs))
-        calls = sorted(by_src[key], key=lambda c: (c["op"] in MUTATING, json.dumps(c, sort_keys=True)))
+        va = (va or list(range(1, len(regs) + 1))) + list(range(len(va or regs) + 1, nreg + 1))
+        fa = (fa or list(range(1, len(regs) + 1))) + list(range(len(fa or regs) + 1, nreg + 1))
+        # the source state of register i: its content and the register whose cells it shares (0 = its own)
+        src = []
+        for i, x in enumerate(regs):
+            j = va[i] if (x["kind"] in VALREF and va[i] != i + 1 and regs[va[i] - 1]["kind"] in VALREF) else 0
+            src.append((json.dumps(x, sort_keys=True), j, fa[i] if j else 0))
+        shared = any(s[1] for s in src)
+        calls = sorted(by_src[key], key=lambda c: (c["op"] in MUTATING or bool(c["a"].get("d", 0)), json.dumps(c, sort_keys=True)))
         if n % per_exec == 0:
             lines.append(ev("Reset", n=nreg))
-            cur = [plain0] * nreg
+            cur = [(json.dumps(plain0, sort_keys=True), 0, 0)] * nreg
         for c in calls:
             for i, x in enumerate(regs):
-                if cur[i] != x:
-                    lines.append(load_event(i + 1, x, rnd))
-                    cur[i] = x
+                if cur[i] != src[i]:
+                    j = src[i][1]
+                    if j:
+                        lines.append(ev("Alias", i=i + 1, how=x["kind"], j=j, has=bool(x["has"])))
+                    else:
+                        lines.append(load_event(i + 1, x, rnd))
+                        for k in range(i + 1, nreg):        # registers closing over the cells of i have lost them
+                            if src[k][1] == i + 1:
+                                cur[k] = None
+                    cur[i] = src[i]
             lines.append({"op": c["op"], "a": c["a"]})
             taken += 1
             a = c["a"]
             if c["op"] in MUTATING:
+                if shared:
+                    cur = [None] * nreg
                 for x in ("i", "j"):
                     if x in a:
                         cur[a[x] - 1] = None
             if a.get("d", 0):
                 cur[a["d"] - 1] = None
+                if shared:
+                    cur = [None] * nreg
     return lines, taken
 
 
@@ -217,21 +272,27 @@ class Gen:
         self.kind = ["plain"] * (nreg + 1)
         self.has = [True] * (nreg + 1)      # True / False / None (unknown)
         self.val = [0] * (nreg + 1)         # int / None (unknown)
+        self.cellv = list(range(nreg + 1))  # which registers share a value cell / a flag cell (ids as in the spec)
+        self.cellf = list(range(nreg + 1))
         self.un = [x[0] for x in t["UNOP"] + t["UFUN"] + t["UPRED"]]
         self.bin = [x[0] for x in t["BINOP"] + t["BFUN"]]
         self.boolres = set(x[0] for x in t["UNOP"] + t["BINOP"] if x[3] == "B") | set(x[0] for x in t["UPRED"])
         self.asg = [(x[0], x[2]) for x in t["ASGOP"]]
         self.cmp = [x[0] for x in t["CMPOP"]]
         self.tern = [x[0] for x in t["TFUN"]]
-        self.dcompounds = 0
+        self.d_un = [f for f in self.un if f not in D_NOFUNS]
+        self.d_bin = [f for f in self.bin if f not in D_NOFUNS]
+        self.d_asg = [(f, b) for f, b in self.asg if f not in D_NOFUNS]
 
     def dvalue(self):
-        return self.r.choice([-3, -2, -1, 0, 0, 1, 2, 3, NANV, NANV])
+        return self.r.choice([-3, -2, -1, 0, 0, 1, 2, 3, 7, 1000, NANV, NANV] + DTAB)
 
     def value(self, kind=None):
         if kind in D_KINDS:
             return self.dvalue()
         c = self.r.random()
+        if kind in MIX_KINDS and c < 0.3:
+            return NAV
         if c < 0.55:
             return self.r.choice([-2, -1, 0, 0, 1, 2, 3, 7])
         if c < 0.75:
@@ -244,21 +305,48 @@ class Gen:
     def regs(self, pred):
         return [i for i in range(1, self.n + 1) if pred(self.kind[i])]
 
+    # ---- which registers share cells (mirrors Lifted.tla's va / fa)
+    def fresh(self, ids, i):
+        used = set(ids[j] for j in range(1, self.n + 1) if j != i)
+        return min(k for k in range(1, self.n + 1) if k not in used)
+
+    def recreate(self, i):
+        self.cellv[i] = self.fresh(self.cellv, i)
+        self.cellf[i] = self.fresh(self.cellf, i)
+
+    def sharers(self, i):
+        """Registers whose view may change when register i is written (value cell or flag cell in common)."""
+        out = []
+        for k in range(1, self.n + 1):
+            if k == i:
+                continue
+            if (self.kind[k] in VALREF and self.kind[i] in VALREF and self.cellv[k] == self.cellv[i]) or \
+                    (self.kind[k] in FLAGREF and self.kind[i] in FLAGREF and self.cellf[k] == self.cellf[i]):
+                out.append(k)
+        return out
+
+    def wrote(self, i):
+        """Register i was written through: the shadow forgets the content of every register sharing a cell with it."""
+        for k in self.sharers(i):
+            self.has[k], self.val[k] = None, None
+
     def load(self, i, kind=None, has=None, v=None):
         r = self.r
         kind = kind or r.choice(["opt", "optref", "masked", "mref", "plain", "opt", "optcr", "optvr", "int", "masked",
-                                 "dopt", "dmasked", "dplain"])
-        hows = {"dplain": ["dplain"], "dopt": ["dopt2"], "dmasked": ["dmasked2"], "plain": ["plain"], "int": ["int"], "opt": ["opt2", "opt2", "opt1", "optdef", "missing", "optional_vv"],
+                                 "dopt", "dmasked", "dplain", "mo", "mo", "po"])
+        hows = {"dplain": ["dplain"], "dopt": ["dopt2"], "dmasked": ["dmasked2"], "plain": ["plain"], "int": ["int"],
+                "opt": ["opt2", "opt2", "opt1", "optdef", "missing", "optional_vv", "opt_from_ref", "opt_from_cref", "opt_from_vr", "opt_from_int", "opt_from_intmv"],
                 "optref": ["optref", "optional_rr"], "optcr": ["optcr"], "optvr": ["optvr", "optional_rv"],
                 "masked": ["masked2", "masked2", "masked1", "maskedf", "masked_value1", "masked_value2", "maskeddef"],
-                "mref": ["mref", "masked_value_rr"]}[kind]
+                "mref": ["mref", "masked_value_rr"], "mo": ["mo2"], "po": ["po2"]}[kind]
         how = r.choice(hows) if has is None else CANON_HOW[kind]
         if has is None:
             has = r.random() < 0.6
         if v is None:
             v = self.value(kind)
         self.kind[i] = kind
-        if how in ("plain", "int", "dplain", "opt1", "masked1", "masked_value1"):
+        self.recreate(i)
+        if how in ("plain", "int", "dplain", "opt1", "masked1", "masked_value1", "po2"):
             has = True
         if how in ("optdef", "missing", "maskedf"):
             has, v = True, 0
@@ -267,42 +355,86 @@ class Gen:
             has, v = True, 0
             self.has[i], self.val[i] = None, None
         else:
-            self.has[i], self.val[i] = has, v
+            self.has[i], self.val[i] = has, (v if v not in DTAB else None)
         return ev("Load", i=i, how=how, has=has, v=v)
+
+    def alias(self):
+        """A second (third) closure over the cells of an existing reference closure."""
+        r = self.r
+        srcs = self.regs(lambda k: k in VALREF)
+        if not srcs:
+            return None
+        j = r.choice(srcs)
+        i = r.choice([k for k in range(1, self.n + 1) if k != j])
+        hows = ["optvr"] + (["optref", "optcr", "mref", "mref", "optref"] if self.kind[j] in FLAGREF else [])
+        how = r.choice(hows)
+        has = r.random() < 0.6 if how == "optvr" else True
+        self.kind[i] = how
+        self.cellv[i] = self.cellv[j]
+        self.val[i] = self.val[j]
+        if how == "optvr":
+            self.cellf[i] = self.fresh(self.cellf, i)
+            self.has[i] = has
+        else:
+            self.cellf[i] = self.cellf[j]
+            self.has[i] = self.has[j]
+        return ev("Alias", i=i, how=how, j=j, has=has)
 
     def forget(self, i, kind=None):
         if kind:
             self.kind[i] = kind
+            self.recreate(i)
         self.has[i], self.val[i] = None, None
 
     def div_safe(self, idxs, j):
-        """x / r[j] is inside the C++ contract: the divisor is known non-zero, or some operand is known missing."""
+        """x / r[j] is inside the C++ contract: the divisor is known non-zero (or a missing inner optional),
+        or some operand is known missing / known to hold a missing inner optional."""
         if self.val[j] is not None and self.val[j] != 0:
             return True
-        return any(self.has[i] is False for i in idxs)
+        return any(self.has[i] is False or self.val[i] == NAV for i in idxs)
 
     def pick_operands(self, n):
         """n registers with at least one lifted operand, no mixing of the two families or of the value types."""
         r = self.r
         for _ in range(40):
             idx = [r.randrange(1, self.n + 1) for _ in range(n)]
-            fams = set(self.fam(self.kind[i]) for i in idx)
-            if ("o" in fams) != ("m" in fams) and len(set(self.kind[i] in D_KINDS for i in idx)) == 1:
+            ks = [self.kind[i] for i in idx]
+            fams = set(self.fam(k) for k in ks)
+            if ("o" in fams) != ("m" in fams) and len(set(k in D_KINDS for k in ks)) == 1 and len(set(k in MIX_KINDS for k in ks)) == 1:
                 return idx
         return None
 
     def isd(self, idx):
         return self.kind[idx[0]] in D_KINDS
 
+    def ismix(self, idx):
+        return self.kind[idx[0]] in MIX_KINDS
+
+    def dest(self, idx, boolres):
+        """Register the result is stored to (0 = not stored): value results of the integer algebra only."""
+        if boolres or self.isd(idx) or self.r.random() < 0.5:
+            return 0
+        return self.r.randrange(1, self.n + 1)
+
+    def res_kind(self, idx):
+        if self.ismix(idx):
+            return "mo"
+        return "opt" if "o" in [self.fam(self.kind[i]) for i in idx] else "masked"
+
     def step(self):
         r = self.r
         for _ in range(200):
             c = r.random()
-            if c < 0.16:
+            if c < 0.14:
                 return self.load(r.randrange(1, self.n + 1))
-            if c < 0.20:     # the property's own example: division / modulo by a missing zero
+            if c < 0.18:
+                e = self.alias()
+                if e is None:
+                    continue
+                return e
+            if c < 0.22:     # the property's own example: division / modulo by a missing zero
                 idx = self.pick_operands(2)
-                if not idx or self.kind[idx[1]] in PLAIN_KINDS or self.kind[idx[0]] == "optcr" or self.isd(idx):
+                if not idx or self.kind[idx[1]] in PLAIN_KINDS or self.kind[idx[0]] == "optcr" or self.isd(idx) or self.ismix(idx):
                     continue
                 i, j = idx
                 if i == j:
@@ -312,59 +444,55 @@ class Gen:
                     f = r.choice(["div_eq", "mod_eq"])
                     nxt = ev("Compound", f=f, i=i, j=j)
                     self.has[i] = False
+                    self.wrote(i)
                 else:
                     nxt = ev("Binary", f=r.choice(["div", "mod"]), i=i, j=j, d=0)
                 return [first, nxt]
-            if c < 0.30:
+            if c < 0.31:
                 idx = self.pick_operands(1)
                 if not idx:
                     continue
-                f = r.choice(D_UN if self.isd(idx) else self.un)
-                d = 0 if f in self.boolres or self.isd(idx) or r.random() < 0.5 else r.randrange(1, self.n + 1)
+                f = r.choice(self.d_un if self.isd(idx) else self.un)
+                d = self.dest(idx, f in self.boolres)
                 e = ev("Unary", f=f, i=idx[0], d=d)
                 if d:
-                    self.forget(d, "opt" if self.fam(self.kind[idx[0]]) == "o" else "masked")
+                    self.forget(d, self.res_kind(idx))
                 return e
             if c < 0.52:
                 idx = self.pick_operands(2)
                 if not idx:
                     continue
-                f = r.choice(D_BIN if self.isd(idx) else self.bin)
-                if f in ("div", "mod") and not self.div_safe(idx, idx[1]):
+                d_ = self.isd(idx)
+                f = r.choice(self.d_bin if d_ else self.bin)
+                if f in ("div", "mod") and not d_ and not self.div_safe(idx, idx[1]):
                     continue
-                fam = "opt" if "o" in [self.fam(self.kind[i]) for i in idx] else "masked"
-                d = 0 if f in self.boolres or self.isd(idx) or r.random() < 0.5 else r.randrange(1, self.n + 1)
+                d = self.dest(idx, f in self.boolres)
                 e = ev("Binary", f=f, i=idx[0], j=idx[1], d=d)
                 if d:
-                    self.forget(d, fam)
+                    self.forget(d, self.res_kind(idx))
                 return e
             if c < 0.60:
                 idx = self.pick_operands(3)
                 if not idx:
                     continue
-                fam = "opt" if "o" in [self.fam(self.kind[i]) for i in idx] else "masked"
-                d = 0 if self.isd(idx) or r.random() < 0.5 else r.randrange(1, self.n + 1)
+                d = self.dest(idx, False)
                 e = ev("Ternary", f=r.choice(self.tern), i=idx[0], j=idx[1], k=idx[2], d=d)
                 if d:
-                    self.forget(d, fam)
+                    self.forget(d, self.res_kind(idx))
                 return e
             if c < 0.72:
                 idx = self.pick_operands(2)
                 if not idx or self.kind[idx[0]] not in WRITABLE:
                     continue
-                if self.isd(idx):
-                    # double registers must stay small (products are followed by TLC's 32-bit integers):
-                    # at most 4 compound assignments on doubles per execution, i.e. |value| <= 3 * 2^4
-                    if self.dcompounds >= 4:
-                        continue
-                    self.dcompounds += 1
-                f, base = r.choice(D_ASG if self.isd(idx) else self.asg)
-                if base in ("div", "mod") and not self.div_safe(idx, idx[1]):
+                d_ = self.isd(idx)
+                f, base = r.choice(self.d_asg if d_ else self.asg)
+                if base in ("div", "mod") and not d_ and not self.div_safe(idx, idx[1]):
                     continue
                 i, j = idx
                 hi, hj = self.has[i], self.has[j]
                 self.has[i] = False if (hi is False or hj is False) else (True if (hi and hj) else None)
                 self.val[i] = None
+                self.wrote(i)
                 return ev("Compound", f=f, i=i, j=j)
             if c < 0.78:
                 idx = self.pick_operands(2)
@@ -372,7 +500,7 @@ class Gen:
                     continue
                 return ev("Compare", f=r.choice(self.cmp), i=idx[0], j=idx[1])
             if c < 0.84:
-                ok = self.regs(lambda k: k in OPT_KINDS or k in PLAIN_KINDS)
+                ok = self.regs(lambda k: (k in OPT_KINDS or k in PLAIN_KINDS) and k not in MIX_KINDS)
                 if len(ok) < 1:
                     continue
                 i, j = r.choice(ok), r.choice(ok)
@@ -396,12 +524,18 @@ class Gen:
                 if not ok:
                     continue
                 i = r.choice(ok)
-                return ev("ValueOr", i=i, dv=self.value(self.kind[i]))
+                dv = self.value(self.kind[i])
+                if dv in DTAB:
+                    continue
+                return ev("ValueOr", i=i, dv=dv, form=r.choice(["lv", "rv", "crv"]))
             if c < 0.91:
                 i = r.randrange(1, self.n + 1)
                 k = self.kind[i]
-                paths = (["member", "rvalue"] if k not in PLAIN_KINDS else []) + (["free"] if k in OPT_KINDS or k == "plain" else []) + \
-                        (["conv"] if k in MSK_KINDS else [])
+                if k in MIX_KINDS:
+                    paths = ["member"] if k == "mo" else []
+                else:
+                    paths = (["member", "rvalue", "stream"] if k not in PLAIN_KINDS else []) + (["free"] if k in OPT_KINDS or k == "plain" else []) + \
+                            (["conv"] if k in MSK_KINDS else [])
                 if not paths:
                     continue
                 return ev("Get", i=i, path=r.choice(paths))
@@ -412,41 +546,56 @@ class Gen:
                 if t == 0 and k in WRITABLE:
                     b = r.random() < 0.5
                     self.has[i] = b
+                    self.wrote(i)
                     return ev("SetFlag", i=i, b=b)
-                if t == 1 and k != "optcr":
+                if t == 1 and k not in ("optcr", "mo", "po"):
                     v = self.value(k)
+                    if v in DTAB:
+                        continue
                     self.val[i] = v
+                    self.wrote(i)
                     return ev("SetVal", i=i, v=v)
                 if t == 2 and k in VALREF:
                     v, h = self.value(), r.random() < 0.5
                     self.val[i] = v
                     if k != "optvr":
                         self.has[i] = h
+                    self.wrote(i)
                     return ev("Poke", i=i, has=h, v=v)
-                if t == 3 and k in WRITABLE:
+                if t == 3 and k in WRITABLE and k not in MIX_KINDS:
                     v = self.value(k)
+                    if v in DTAB:
+                        continue
                     if k in OPT_KINDS:
                         self.has[i], self.val[i] = True, v
                     elif self.has[i]:
                         self.val[i] = v
                     elif self.has[i] is None:
                         self.val[i] = None
+                    self.wrote(i)
                     return ev("AssignVal", i=i, v=v)
                 continue
             # assignment between registers, swap
             i, j = r.randrange(1, self.n + 1), r.randrange(1, self.n + 1)
             ki, kj = self.kind[i], self.kind[j]
+            if ki in MIX_KINDS or kj in MIX_KINDS:
+                continue
             if r.random() < 0.5:
                 if ki in WRITABLE and kj not in PLAIN_KINDS and self.fam(ki) == self.fam(kj) and not (ki == kj and ki in VALREF) \
                         and (ki in D_KINDS) == (kj in D_KINDS):
                     if ki in OPT_KINDS or ki == kj:
                         self.has[i], self.val[i] = self.has[j], self.val[j]
                     else:
-                        self.forget(i)
+                        self.has[i], self.val[i] = None, None
+                    self.wrote(i)
                     return ev("AssignReg", i=i, j=j)
             elif ki == kj and ki in WRITABLE:
                 self.has[i], self.has[j] = self.has[j], self.has[i]
                 self.val[i], self.val[j] = self.val[j], self.val[i]
+                self.wrote(i); self.wrote(j)
+                if j in self.sharers(i):
+                    self.has[i] = self.has[j] = None
+                    self.val[i] = self.val[j] = None
                 return ev("Swap", i=i, j=j, how=r.choice(["member", "free"]) if ki in MSK_KINDS else "member")
         return self.load(1)
 
@@ -468,10 +617,97 @@ def random_script(seed, t, nexec, nops, nreg=4):
     return lines
 
 
+def upstream_script():
+    """The call sequences of the upstream tests (test_xoptional.cpp, test_xmasked_value.cpp) that fall inside the
+    register machine, transcribed call by call (doubles 1.2 / 2.3 / 5.2 ... replaced by small integers and the
+    harness's remarkable doubles; xoptional<double&, bool&> by the reference kinds over the counting type).  The
+    upstream assertions compare a few results; here every call and every register is validated against L1."""
+    L = []
+    R = lambda n: L.append(ev("Reset", n=n))
+    Ld = lambda i, how, has, v: L.append(ev("Load", i=i, how=how, has=has, v=v))
+    B = lambda f, i, j, d=0: L.append(ev("Binary", f=f, i=i, j=j, d=d))
+    U = lambda f, i, d=0: L.append(ev("Unary", f=f, i=i, d=d))
+    T = lambda f, i, j, k, d=0: L.append(ev("Ternary", f=f, i=i, j=j, k=k, d=d))
+    C = lambda f, i, j: L.append(ev("Compare", f=f, i=i, j=j))
+    A = lambda f, i, j: L.append(ev("Compound", f=f, i=i, j=j))
+    G = lambda i, path="member": L.append(ev("Get", i=i, path=path))
+    # xoptional.scalar_tests / free_functions
+    R(3); Ld(1, "optdef", True, 0); G(1); G(1, "free"); Ld(2, "opt1", True, 1); G(2); G(2, "free")
+    Ld(1, "optional_rr", False, 3); G(1); L.append(ev("AssignVal", i=1, v=1)); G(1); G(1, "free")
+    Ld(2, "optional_rv", True, 3); L.append(ev("AssignVal", i=2, v=2)); G(2); L.append(ev("SetVal", i=2, v=2)); G(2, "free")
+    # xoptional.comparison
+    R(3); Ld(1, "dopt2", True, 1); Ld(2, "dopt2", True, 1); Ld(3, "dopt2", False, 0)
+    C("eq", 1, 2); C("ne", 1, 3); C("eq", 3, 3); C("ne", 1, 2)
+    Ld(3, "dplain", True, 1); C("eq", 1, 3); C("eq", 3, 1); C("ne", 3, 2)
+    # xoptional.io
+    R(2); Ld(1, "dopt2", True, 1000002); G(1, "stream"); Ld(2, "dopt2", False, 0); G(2, "stream"); Ld(2, "missing", True, 0); G(2, "stream")
+    # xoptional.implicit_constructor / conversions
+    R(2); Ld(1, "opt_from_int", True, 3); G(1); Ld(2, "opt_from_ref", True, 4); B("plus", 1, 2); Ld(1, "opt_from_cref", False, 5); B("plus", 1, 2)
+    # xoptional.xoptional_proxy: reference closures o1 (12), o2 (23), o3 (45); + - * / < fma; % & | ^ ~ || &&
+    R(4); Ld(1, "optref", True, 12); Ld(2, "optref", True, 23); Ld(3, "optref", True, 45)
+    for f in ("plus", "minus", "mul", "div", "lt"):
+        B(f, 1, 2)
+    T("fma", 1, 2, 3)
+    Ld(1, "optref", True, 9); Ld(2, "optref", True, 4)
+    for f in ("mod", "band", "bor", "bxor", "lor", "land"):
+        B(f, 1, 2)
+    U("bitnot", 1)
+    # ... and the same on doubles 1.5, -2.5, 0.1
+    R(4); Ld(1, "dopt2", True, 1000002); Ld(2, "dopt2", True, 1000003); Ld(3, "dopt2", True, 1000004)
+    for f in ("plus", "minus", "mul", "div", "lt"):
+        B(f, 1, 2)
+    T("fma", 1, 2, 3)
+    # xoptional.select
+    R(3); Ld(1, "dopt2", False, 0); Ld(2, "dplain", True, 3)
+    L.append(ev("Select", c={"lifted": False, "has": True, "val": True}, i=1, j=2, d=0))
+    L.append(ev("Select", c={"lifted": False, "has": True, "val": False}, i=1, j=2, d=0))
+    Ld(1, "dplain", True, 2)
+    L.append(ev("Select", c={"lifted": True, "has": True, "val": True}, i=1, j=2, d=0))
+    L.append(ev("Select", c={"lifted": True, "has": True, "val": False}, i=1, j=2, d=0))
+    # xmasked_value.ctor / value / visible / conversion
+    R(3); Ld(1, "masked1", True, 5); G(1); Ld(2, "masked2", False, 5); G(2); Ld(3, "maskedf", True, 0); G(3)
+    Ld(1, "mref", True, 5); L.append(ev("SetVal", i=1, v=3)); G(1); L.append(ev("SetFlag", i=1, b=False)); G(1); G(1, "conv")
+    # xmasked_value.comparison
+    R(3); Ld(1, "dmasked2", True, 5); Ld(2, "dmasked2", True, 5); Ld(3, "dmasked2", False, 5)
+    C("eq", 1, 2); C("ne", 1, 2); C("eq", 1, 3); C("eq", 3, 3); C("ne", 1, 3)
+    Ld(2, "dplain", True, 5); C("eq", 1, 2); C("eq", 2, 1); C("eq", 3, 2); C("ne", 2, 3)
+    # xmasked_value.swap
+    R(2); Ld(1, "masked2", True, 5); Ld(2, "masked2", False, 3); L.append(ev("Swap", i=1, j=2, how="member")); L.append(ev("Swap", i=1, j=2, how="free"))
+    # xmasked_value.arithm_neg / plus / minus / mult / div, operator_less ... more_equal (m visible, then masked)
+    for vis in (True, False):
+        R(3); Ld(1, "dmasked2", vis, 10); Ld(2, "dplain", True, 2); Ld(3, "dmasked2", True, 1000000)
+        U("neg", 1); U("pos", 1)
+        for f in ("plus", "minus", "mul", "div", "lt", "le", "gt", "ge"):
+            B(f, 1, 1); B(f, 1, 2); B(f, 2, 1); B(f, 1, 3); B(f, 3, 1)
+    # xmasked_value.operator_or / operator_and / operator_not
+    for vis in (True, False):
+        R(3); Ld(1, "dmasked2", vis, 1); Ld(2, "dplain", True, 0); Ld(3, "dplain", True, 1)
+        for f in ("lor", "land"):
+            B(f, 1, 1); B(f, 1, 2); B(f, 2, 1); B(f, 1, 3); B(f, 3, 1)
+        U("lognot", 1)
+    # xmasked_value.assign: c = v, c += 1, c -= 1, c *= 2, c -= b; masked: the assignments do nothing
+    R(3); Ld(1, "mref", True, 5); Ld(2, "plain", True, 1); Ld(3, "plain", True, 2)
+    L.append(ev("AssignVal", i=1, v=3)); A("plus_eq", 1, 2); A("minus_eq", 1, 2); A("mul_eq", 1, 3); A("minus_eq", 1, 1)
+    L.append(ev("AssignVal", i=1, v=3)); L.append(ev("SetFlag", i=1, b=False)); L.append(ev("AssignVal", i=1, v=126)); G(1); A("mul_eq", 1, 3); G(1)
+    R(3); Ld(1, "dmasked2", True, 1000002); Ld(2, "dplain", True, 1); Ld(3, "dplain", True, 2)
+    A("plus_eq", 1, 2); A("minus_eq", 1, 2); A("mul_eq", 1, 3); A("div_eq", 1, 3); L.append(ev("SetFlag", i=1, b=False)); A("mul_eq", 1, 3)
+    # xmasked_value.unary_op / unary_bool_op / binary_op / ternary_op (doubles; then masked optionals)
+    R(3); Ld(1, "dmasked2", True, 5); Ld(2, "dmasked2", True, 11); Ld(3, "dmasked2", False, 0)
+    for f in ("abs", "sqrt", "exp", "isfinite", "isnan"):
+        U(f, 1); U(f, 3)
+    B("pow", 1, 1); Ld(3, "dplain", True, 2); B("pow", 1, 3); B("pow", 3, 1)
+    T("fma", 1, 2, 2); Ld(3, "dmasked2", False, 0); T("fma", 1, 3, 2); T("fma", 2, 1, 3)
+    Ld(3, "dplain", True, 2); T("fma", 1, 2, 3); T("fma", 1, 3, 2); T("fma", 3, 1, 2); T("fma", 3, 3, 2); T("fma", 3, 2, 3); T("fma", 2, 3, 3)
+    R(4); Ld(1, "po2", True, 2); Ld(2, "mo2", True, 5); Ld(3, "mo2", True, 11); Ld(4, "mo2", False, 0)
+    T("fma", 2, 3, 1); T("fma", 2, 1, 3); T("fma", 1, 2, 3); T("fma", 1, 2, 4); T("fma", 1, 1, 3); T("fma", 1, 3, 1); T("fma", 3, 1, 1)
+    B("pow", 2, 2); B("pow", 2, 1); B("pow", 1, 2); B("lor", 2, 1); B("lor", 1, 2); B("land", 2, 2); U("lognot", 2)
+    return L
+
+
 def write_script(path, lines):
     with open(path, "w") as f:
         for l in lines:
-            f.write(json.dumps(l, separators=(",", ":")) + "\n")
+            f.write((l if isinstance(l, str) else json.dumps(l, separators=(",", ":"))) + "\n")
 
 
 def chunk_by_reset(lines, nchunks):
@@ -483,50 +719,472 @@ def chunk_by_reset(lines, nchunks):
     return [lines[a:b] for a, b in zip(cuts, cuts[1:] + [len(lines)])]
 
 
+# ------------------------------------------------------------------ running the harness
 def run_script(ctx, drv, script_path, trace_path):
-    import subprocess
+    """Feed the script to the driver and record its trace.  A crash (abort of the counting operand type on a
+    division by zero, a sanitizer report, an uncaught exception, the per-call CPU limit, a kill by the outer
+    time-out) ends the current execution with a Crash event that carries the call during which it happened;
+    the driver is started again at the next Reset so that the remaining executions are not lost."""
     env = dict(os.environ); env.update(core.ASAN_ENV)
-    with open(script_path) as fin, open(trace_path, "w") as fout:
-        p = subprocess.run([drv], stdin=fin, stdout=fout, stderr=subprocess.PIPE, env=env, timeout=1200)
-    if p.returncode == 3:
-        raise MachineryError("harness rejected script %s: %s" % (script_path, p.stderr.decode()[-500:]))
+    with open(script_path) as f:
+        script = [l.rstrip("\n") for l in f if l.strip()]
+    pos, out, restarts, hangs = 0, [], 0, 0
+    while pos < len(script):
+        try:
+            p = subprocess.run([drv], input=("\n".join(script[pos:]) + "\n").encode(), stdout=subprocess.PIPE, stderr=subprocess.PIPE,
+                               env=env, timeout=1500)
+            rc, so, se = p.returncode, p.stdout.decode(errors="replace"), p.stderr.decode(errors="replace")
+        except subprocess.TimeoutExpired as ex:
+            rc, so, se = 124, (ex.stdout or b"").decode(errors="replace"), "[time-out]"
+        if rc == 3:
+            raise MachineryError("harness rejected script %s: %s" % (script_path, se[-500:]))
+        got = [l for l in so.split("\n") if l.strip()]
+        why = None
+        if got and got[-1].startswith('{"op":"Crash"'):
+            why = json.loads(got[-1]).get("why", "crash")
+            got = got[:-1]
+        normal = [l for l in got if not l.startswith('{"op":"Crash"')]
+        if normal and len(normal) <= len(script) - pos:
+            try:                       # a line cut off by a kill
+                json.loads(normal[-1])
+            except Exception:
+                normal = normal[:-1]
+        out.extend(normal)
+        n = len(normal)
+        if n >= len(script) - pos and why is None:
+            break
+        if why is None:
+            why = "timeout" if rc == 124 else "exit-%s" % rc
+        at = pos + n
+        if at >= len(script):          # (crashed after the last call: while destroying the registers)
+            out.append(json.dumps({"op": "Crash", "a": {"call": {"op": "exit", "a": {"z": 0}}, "why": why}}, separators=(",", ":")))
+            break
+        out.append(json.dumps({"op": "Crash", "a": {"call": json.loads(script[at]), "why": why, "stderr": se[-300:] if why in ("asan",) else ""}}, separators=(",", ":")))
+        nxt = at + 1
+        while nxt < len(script) and not script[nxt].startswith('{"op":"Reset"'):
+            nxt += 1
+        pos = nxt
+        restarts += 1
+        hangs += why in ("cpu-limit", "timeout")
+        if restarts > 200 or hangs >= 3:      # (every call that does not return costs its whole CPU budget)
+            break
+    with open(trace_path, "w") as f:
+        f.write("\n".join(out) + ("\n" if out else ""))
+    return restarts
 
 
-def build_driver(ctx):
-    """The driver instantiates ~1500 lifted overloads: compile its five parts in parallel (-O0: a third of
-    the -O1 compile time), then link."""
-    drv = os.path.join(ctx.work, "lifted_driver")
-    inc = ["-O0", "-g1", "-I", os.path.join(core.HARNESS, "lifted")]
-    objs = [os.path.join(ctx.work, "lifted_part%d.o" % i) for i in range(5)]
-    core.build_many(ctx, [{"src": DRIVER, "out": o, "flags": inc + ["-c", "-DLIFTED_PART=%d" % i]} for i, o in enumerate(objs)])
-    rc, out = core.sh([core.CXX] + core.ASAN + objs + ["-o", drv], timeout=300)
+class BuildFailed(Exception):
+    def __init__(self, out):
+        Exception.__init__(self, out)
+        self.out = out
+
+
+def build_driver(ctx, tag="", cxx=None, opt="-O0", ops_def=None, no_house=False):
+    """The driver instantiates ~2000 lifted overloads: compile its eight parts in parallel (-O0: a third of
+    the -O1 compile time), then link.  Raises BuildFailed with the compiler output."""
+    drv = os.path.join(ctx.work, "lifted_driver" + tag)
+    extra = [opt, "-g1", "-I", os.path.join(core.HARNESS, "lifted")]
+    if ops_def:
+        extra.append('-DLIFTED_OPS_DEF="%s"' % ops_def)
+    if no_house:
+        extra.append("-DLIFTED_NO_HOUSE")
+    objs = [os.path.join(ctx.work, "lifted%s_part%d.o" % (tag, i)) for i in range(NPARTS)]
+    try:
+        core.build_many(ctx, [{"src": DRIVER, "out": o, "flags": extra + ["-c", "-DLIFTED_PART=%d" % i], "cxx": cxx} for i, o in enumerate(objs)])
+    except MachineryError as e:
+        raise BuildFailed(str(e))
+    rc, out = core.sh([cxx or core.CXX] + core.ASAN + objs + ["-o", drv], timeout=300)
     if rc != 0:
-        raise MachineryError("harness does not link:\n%s" % out[-3000:])
+        raise BuildFailed("harness does not link:\n%s" % out[-3000:])
     return drv
 
 
-def classify(findings):
-    def f(evj, execution):
-        for k in findings:
+# ------------------------------------------------------------------ overload probes (when the harness does not build)
+KIND_TYPE = {"plain": "Probe", "int": "int", "opt": "Opt", "optref": "ORef", "optcr": "OCRef", "optvr": "OVRef", "masked": "Msk",
+             "mref": "MRef", "dplain": "double", "dopt": "DOpt", "dmasked": "DMsk", "mo": "MO", "po": "Opt"}
+KIND_CPP = {"plain": "Probe", "int": "int", "opt": "xoptional<Probe, bool>", "optref": "xoptional<Probe&, bool&>",
+            "optcr": "xoptional<const Probe&, const bool&>", "optvr": "xoptional<Probe&, bool>", "masked": "xmasked_value<Probe, bool>",
+            "mref": "xmasked_value<Probe&, bool&>", "dplain": "double", "dopt": "xoptional<double, bool>", "dmasked": "xmasked_value<double, bool>",
+            "mo": "xmasked_value<xoptional<Probe, bool>, bool>", "po": "xoptional<Probe, bool>"}
+FAMILIES = [("opt", ["plain", "int", "opt", "optref", "optcr", "optvr"], {"opt", "optref", "optcr", "optvr"}),
+            ("masked", ["plain", "int", "masked", "mref"], {"masked", "mref"}),
+            ("dopt", ["dplain", "dopt"], {"dopt"}), ("dmasked", ["dplain", "dmasked"], {"dmasked"}),
+            ("mix", ["mo", "po"], {"mo"})]
+PROBE_HEAD = """// generated by checks/c04.py: one lifted operation, every operand-kind pattern, each an explicit instantiation
+#include <xtl/xoptional.hpp>
+#include <xtl/xmasked_value.hpp>
+#include "probe.hpp"
+#include <cmath>
+using pr::Probe;
+using Opt = xtl::xoptional<Probe, bool>; using ORef = xtl::xoptional<Probe&, bool&>; using OCRef = xtl::xoptional<const Probe&, const bool&>;
+using OVRef = xtl::xoptional<Probe&, bool>; using Msk = xtl::xmasked_value<Probe, bool>; using MRef = xtl::xmasked_value<Probe&, bool&>;
+using DOpt = xtl::xoptional<double, bool>; using DMsk = xtl::xmasked_value<double, bool>; using MO = xtl::xmasked_value<Opt, bool>;
+template <class X> void sink(X&&) {}
+"""
+
+
+def patterns(kinds, lifted, arity):
+    import itertools
+    return [p for p in itertools.product(kinds, repeat=arity) if any(k in lifted for k in p)]
+
+
+def probe_units(t):
+    """[(name, description, expression template, arity, compound?, kind patterns)] for every lifted operation."""
+    units = []
+    for x in t["UNOP"]:
+        units.append((x[0], "operator%s" % x[1], "%s a" % x[1], 1, False))
+    for x in t["UFUN"] + t["UPRED"]:
+        units.append((x[0], x[0], "%s(a)" % x[0], 1, False))
+    for x in t["BINOP"] + t["CMPOP"]:
+        units.append((x[0], "operator%s" % x[1], "a %s b" % x[1], 2, False))
+    for x in t["BFUN"]:
+        units.append((x[0], x[0], "%s(a, b)" % x[0], 2, False))
+    for x in t["TFUN"]:
+        units.append((x[0], x[0], "%s(a, b, c)" % x[0], 3, False))
+    for x in t["ASGOP"]:
+        units.append((x[0], "operator%s" % x[1], "a %s b" % x[1], 2, True))
+    return units
+
+
+def probe_tu(unit, only=None):
+    """(source text, {line: kind pattern}) of the probe translation unit of one operation."""
+    name, desc, expr, arity, compound = unit
+    args = ["a", "b", "c"][:arity]
+    src = PROBE_HEAD
+    tp = ", ".join("class %s" % x.upper() for x in args)
+    if compound:
+        src += "template <%s> void use(A& a, const B& b) { %s; }\n" % (tp, expr)
+    else:
+        src += "template <%s> void use(%s) { sink(%s); }\n" % (tp, ", ".join("const %s& %s" % (x.upper(), x) for x in args), expr)
+    lines = {}
+    n = src.count("\n")
+    for fam, kinds, lifted in FAMILIES:
+        if fam in ("dopt", "dmasked") and name in D_NOFUNS:
+            continue
+        for p in patterns(kinds, lifted, arity):
+            if compound and (p[0] not in lifted or p[0] == "optcr"):
+                continue
+            if fam == "mix" and name in ("eq", "ne") and False:
+                continue
+            if only is not None and list(p) != list(only):
+                continue
+            ts = [KIND_TYPE[k] for k in p]
+            if compound:
+                src += "template void use<%s>(%s&, const %s&);\n" % (", ".join(ts), ts[0], ts[1])
+            else:
+                src += "template void use<%s>(%s);\n" % (", ".join(ts), ", ".join("const %s&" % x for x in ts))
+            n += 1
+            lines[n] = p
+    return src, lines
+
+
+CORE_PROBE = PROBE_HEAD + """// construction from (value, flag) and the member accessors: what defines a present / missing operand
+template <class W, class V, class F> int core_o(V&& v, F&& f) { W w(static_cast<V&&>(v), static_cast<F&&>(f)); const W& c = w; sink(c.value()); return bool(c.has_value()) ? 1 : 0; }
+template <class W, class V, class F> int core_m(V&& v, F&& f) { W w(static_cast<V&&>(v), static_cast<F&&>(f)); const W& c = w; sink(c.value()); return bool(c.visible()) ? 1 : 0; }
+int run()
+{
+    Probe p(1); bool b = true; double d = 1;
+    return core_o<Opt>(Probe(1), true) + core_o<ORef>(p, b) + core_o<OCRef>(p, b) + core_o<OVRef>(p, true) + core_o<DOpt>(1.0, true)
+         + core_m<Msk>(Probe(1), true) + core_m<MRef>(p, b) + core_m<DMsk>(d, true) + core_m<MO>(Opt(Probe(1), true), true);
+}
+"""
+SELECT_PROBE = PROBE_HEAD + """template <class C, class A, class B> void use(const C& c, const A& a, const B& b) { sink(xtl::select(c, a, b)); }
+template <class A, class U> void vor(const A& a, const U& u) { sink(a.value_or(u)); }
+using OB = xtl::xoptional<bool, bool>;
+"""
+
+
+def compile_probe(ctx, path):
+    cmd = [core.CXX, "-std=c++14", "-fsyntax-only", "-Wno-deprecated-declarations", "-I", core.INCLUDE,
+           "-I", os.path.join(core.HARNESS, "lifted"), path]
+    return core.sh(cmd, timeout=600)
+
+
+def attribute(out, base, lines):
+    """{kind pattern: first error line} from a compiler log: an error belongs to the explicit instantiation
+    named by the closest preceding 'required from here' line of the probe file."""
+    res, cur = {}, None
+    for l in out.splitlines():
+        m = re.search(re.escape(base) + r":(\d+):\d+:\s+required from here", l)
+        if m and int(m.group(1)) in lines:
+            cur = lines[int(m.group(1))]
+            continue
+        m = re.search(re.escape(base) + r":(\d+):\d+: error", l)
+        if m and int(m.group(1)) in lines:
+            cur = lines[int(m.group(1))]
+        if "error" in l and cur is not None and cur not in res:
+            res[cur] = re.sub(r"^\S+:\d+:\d+:\s*", "", l.strip())[:300]
+    return res
+
+
+def probe_overloads(ctx, t):
+    """Compile every lifted operation as its own probe.  Returns (failing, core_ok): failing = [(op name,
+    description, kind pattern or None, compiler message)]."""
+    from concurrent.futures import ThreadPoolExecutor
+    pdir = ctx.sub("probes")
+    empty = os.path.join(pdir, "empty.cpp")
+    with open(empty, "w") as f:
+        f.write(PROBE_HEAD + "int main() { return 0; }\n")
+    rc, out = compile_probe(ctx, empty)
+    if rc != 0:
+        raise MachineryError("the two headers do not compile at all against %s (nothing can be decided about C04):\n%s" % (core.INCLUDE, out[-3000:]))
+    failing = []
+    cp = os.path.join(pdir, "core.cpp")
+    with open(cp, "w") as f:
+        f.write(CORE_PROBE)
+    rc, out = compile_probe(ctx, cp)
+    core_ok = rc == 0
+    if not core_ok:
+        failing.append(("core", "construction from (value, flag) / has_value() / visible() / value()", None,
+                        " | ".join(l.strip() for l in out.splitlines() if "error" in l)[:400]))
+    # select and value_or
+    sp = os.path.join(pdir, "select.cpp")
+    src, n, slines = SELECT_PROBE, SELECT_PROBE.count("\n"), {}
+    for cnd in ("bool", "OB"):
+        for a in ("plain", "int", "opt", "optref", "optcr", "optvr"):
+            for b in ("plain", "int", "opt", "optref", "optcr", "optvr"):
+                if {a, b} <= {"plain", "int"} and (cnd == "bool" or {a, b} == {"int"}):
+                    continue
+                src += "template void use<%s, %s, %s>(const %s&, const %s&, const %s&);\n" % (cnd, KIND_TYPE[a], KIND_TYPE[b], cnd, KIND_TYPE[a], KIND_TYPE[b])
+                n += 1
+                slines[n] = ("select", cnd, a, b)
+    for a in ("opt", "optref", "optcr", "optvr"):
+        src += "template void vor<%s, Probe>(const %s&, const Probe&);\n" % (KIND_TYPE[a], KIND_TYPE[a])
+        n += 1
+        slines[n] = ("value_or", a)
+    src += "template void vor<DOpt, double>(const DOpt&, const double&);\n"
+    slines[n + 1] = ("value_or", "dopt")
+    with open(sp, "w") as f:
+        f.write(src)
+    rc, out = compile_probe(ctx, sp)
+    if rc != 0:
+        att = attribute(out, "select.cpp", slines)
+        for pat, msg in sorted(att.items()) or [(None, " | ".join(l.strip() for l in out.splitlines() if "error" in l)[:300])]:
+            nm = pat[0] if pat else "select"
+            failing.append((nm, nm, pat[1:] if pat else None, msg))
+
+    units = probe_units(t)
+
+    def one(u):
+        src, lines = probe_tu(u)
+        p = os.path.join(pdir, "op_%s.cpp" % u[0])
+        with open(p, "w") as f:
+            f.write(src)
+        rc, out = compile_probe(ctx, p)
+        if rc == 0:
+            return []
+        if rc == 124:
+            return [(u[0], u[1], None, "compiling the probe timed out")]
+        att = attribute(out, os.path.basename(p), lines)
+        if not att:
+            return [(u[0], u[1], None, " | ".join(l.strip() for l in out.splitlines() if "error" in l)[:300])]
+        return [(u[0], u[1], pat, msg) for pat, msg in sorted(att.items())]
+    with ThreadPoolExecutor(max_workers=core.NCPU) as ex:
+        for res in ex.map(one, units):
+            failing.extend(res)
+    ctx.notes["overload_probes_compiled"] = len(units) + 2
+    return failing, core_ok
+
+
+def degraded_ops_def(ctx, skip):
+    p = os.path.join(ctx.work, "ops_degraded.def")
+    with open(OPS_DEF) as f, open(p, "w") as g:
+        for line in f:
+            m = re.match(r"\s*L_\w+\((\w+)\s*,", line)
+            if m and m.group(1) in skip:
+                continue
+            g.write(line)
+    return p
+
+
+# ------------------------------------------------------------------ validation
+def script_form(trace_lines):
+    """The calls of a recorded execution (what was observed dropped; a Crash event stands for the call during
+    which it happened; Sync events are the validator's own)."""
+    out = []
+    for l in trace_lines:
+        d = json.loads(l) if isinstance(l, str) else dict(l)
+        if d.get("op") == "Sync":
+            continue
+        if d.get("op") == "Crash":
+            d = d.get("a", {}).get("call", {"op": "exit"})
+            if d.get("op") in ("exit", "giving-up"):
+                continue
+        d.pop("res", None)
+        d.pop("st", None)
+        out.append(json.dumps(d, separators=(",", ":")))
+    return out
+
+
+def advisory_key(evj):
+    a = evj.get("a", {})
+    return json.dumps([evj.get("op"), a.get("how"), a.get("path")])
+
+
+class Validator:
+    """Validates the trace files in parallel TLC processes.  At a rejection the event is classified; validation
+    goes on behind an advisory event from the state the harness recorded there (Sync), after the next Reset
+    otherwise.  A housekeeping call that has been rejected twice is no longer validated at all (its events are
+    replaced by Sync events), so a pervasive advisory deviation costs a few TLC runs, not one per occurrence."""
+
+    def __init__(self, ctx, findings):
+        self.ctx, self.findings = ctx, findings
+        self.lock = threading.Lock()
+        self.xlock = threading.Lock()
+        self.explains = 0
+        self.adv_explains = 0
+        self.rejections = []       # dicts: path, idx, ev, expected, execution, cls
+        self.nviol = 0
+        self.adv_count = {}
+        self.muted = set()
+
+    def classify(self, evj):
+        for k in self.findings:
             m = k.get("match", {})
             if m and all(evj.get(x) == y or evj.get("a", {}).get(x) == y for x, y in m.items()):
-                return "%s (%s)" % (k["key"], k["what"])
-        if evj.get("op") in ADVISORY_OPS:
-            return "ADVISORY " + json.dumps({"op": evj.get("op"), "a": evj.get("a")}, sort_keys=True)
-        return None
-    return f
+                return "known", "%s (%s)" % (k["key"], k["what"])
+        if evj.get("op") in ("Reset", "Sync"):
+            return "machinery", None
+        if is_advisory(evj):
+            return "advisory", None
+        return "violation", None
+
+    def mute(self, lines):
+        if not self.muted:
+            return lines
+        out = []
+        for l in lines:
+            if l.startswith('{"op":"Reset"') or l.startswith('{"op":"Sync"') or '"st":' not in l:
+                out.append(l)
+                continue
+            op = l[7:l.index('"', 7)]
+            if not any(op == json.loads(k)[0] for k in self.muted):
+                out.append(l)
+                continue
+            evj = json.loads(l)
+            if is_advisory(evj) and advisory_key(evj) in self.muted:
+                out.append(json.dumps({"op": "Sync", "a": {"z": 0}, "st": evj["st"]}, separators=(",", ":")))
+            else:
+                out.append(l)
+        return out
+
+    def one(self, path):
+        ctx = self.ctx
+        with open(path) as f:
+            orig = [l.rstrip("\n") for l in f if l.strip()]
+        cur, base, synced, attempt = orig, 0, False, 0
+        curpath = path
+        while True:
+            r = core.validate_trace(ctx, "LiftedTrace", "LiftedTrace.cfg", curpath, explain=False)
+            with self.lock:
+                ctx.cov["events_validated"] += max(0, r["matched"] - (1 if synced else 0))
+            if r["accepted"]:
+                return
+            k = r["fail_line"]
+            oidx = base + k - (1 if synced else 0)
+            resync_failed = synced and k == 0
+            try:
+                evj = json.loads(orig[min(oidx, len(orig) - 1)])
+            except Exception:
+                evj = {"op": "?"}
+            cls, key = ("advisory", None) if resync_failed else self.classify(evj)
+            if cls == "violation" and cur[k].startswith('{"op":"Sync"'):
+                cls = "advisory"          # (a muted housekeeping event whose recorded state is not even self-consistent)
+            with self.lock:
+                if cls == "advisory":
+                    do_explain = self.adv_explains < 4 and not resync_failed
+                    self.adv_explains += do_explain
+                else:
+                    do_explain = self.explains < MAX_EXPLAIN and cls != "known"
+                    self.explains += do_explain
+            if do_explain:
+                with self.xlock:
+                    expected = core.explain_event(ctx, "LiftedTrace", "LiftedTrace.cfg", cur, k)
+            else:
+                expected = "(not explained: enough rejections explained already)"
+            s = oidx
+            while s > 0 and not orig[s].startswith('{"op":"Reset"'):
+                s -= 1
+            with self.lock:
+                if not resync_failed:
+                    self.rejections.append({"path": path, "idx": oidx, "ev": evj, "line": orig[oidx] if oidx < len(orig) else "", "expected": expected,
+                                            "execution": orig[s:oidx + 1], "cls": cls, "key": key})
+                if cls == "violation":
+                    self.nviol += 1
+                if cls == "advisory" and not resync_failed:
+                    ak = advisory_key(evj)
+                    self.adv_count[ak] = self.adv_count.get(ak, 0) + 1
+                    if self.adv_count[ak] >= 2:
+                        self.muted.add(ak)
+                stop = self.nviol >= MAX_VIOLATIONS
+            attempt += 1
+            if stop or attempt > 40:
+                return
+            if cls == "advisory" and "st" in evj and not resync_failed:
+                # resume behind the rejected housekeeping call, from the state the harness recorded there
+                sync = json.dumps({"op": "Sync", "a": {"z": 0}, "st": evj["st"]}, separators=(",", ":"))
+                cur, base, synced = [sync] + orig[oidx + 1:], oidx + 1, True
+            else:
+                nxt = oidx + 1
+                while nxt < len(orig) and not orig[nxt].startswith('{"op":"Reset"'):
+                    nxt += 1
+                if nxt >= len(orig):
+                    return
+                cur, base, synced = orig[nxt:], nxt, False
+            if len(cur) <= (1 if synced else 0):
+                return
+            with self.lock:
+                cur = self.mute(cur)
+            curpath = "%s.rest%d" % (path, attempt)
+            with open(curpath, "w") as f:
+                f.write("\n".join(cur) + "\n")
+
+    def run(self, traces):
+        from concurrent.futures import ThreadPoolExecutor
+        with ThreadPoolExecutor(max_workers=max(1, core.NCPU // 2)) as ex:
+            list(ex.map(self.one, traces))
+        return self.rejections
 
 
-def validate(ctx, traces, findings):
-    n0 = len(ctx.known)
-    res = core.validate_traces(ctx, "LiftedTrace", "LiftedTrace.cfg", traces, classify=classify(findings))
-    # advisory rejections (housekeeping calls, not the property): MODEL-DRIFT, not KNOWN-FINDING
-    adv = [k for k in ctx.known if k.startswith("ADVISORY ")]
-    ctx.known[:] = [k for k in ctx.known if not k.startswith("ADVISORY ")]
-    for k in adv[:5]:
-        ctx.drift.append("a housekeeping call (construction/accessor/assignment/swap: documented class behaviour, not in "
-                         "the property sentence) does not behave as Lifted.tla says: %s" % k[9:])
-    return res
+def report(ctx, rejections, drivers, confirm=True):
+    """Turn the rejections into verdicts: VIOLATION (with a replay, re-executed once), KNOWN-FINDING, advisory."""
+    adv = {}
+    nconf = 0
+    rejections = sorted(rejections, key=lambda x: (x["path"], x["idx"]))
+    for rj in rejections:
+        evj = rj["ev"]
+        if rj["cls"] == "machinery":
+            raise MachineryError("trace validation lost track at event %d of %s (%s): %s" % (rj["idx"] + 1, rj["path"], evj.get("op"), rj["expected"][:500]))
+        if rj["cls"] == "known":
+            if rj["key"] not in ctx.known:
+                ctx.known.append(rj["key"])
+            continue
+        if rj["cls"] == "advisory":
+            k = json.dumps({"op": evj.get("op"), "a": {x: y for x, y in evj.get("a", {}).items() if x in ("how", "path", "f")}}, sort_keys=True)
+            adv.setdefault(k, [0, rj])
+            adv[k][0] += 1
+            continue
+        replay_lines = script_form(rj["execution"])
+        flavour = "clang" if rj["path"].endswith("-clang.ndjson") or "-clang.ndjson.rest" in rj["path"] else "gcc"
+        drv = drivers.get(flavour)
+        if flavour != "gcc":
+            replay_lines = [json.dumps({"_meta": {"build": flavour}})] + replay_lines
+        if confirm and drv and nconf < CONFIRM:
+            nconf += 1
+            sp = os.path.join(ctx.work, "confirm-%d.script" % nconf)
+            tp = os.path.join(ctx.work, "confirm-%d.ndjson" % nconf)
+            write_script(sp, [l for l in replay_lines if "_meta" not in l])
+            run_script(ctx, drv, sp, tp)
+            r2 = core.validate_trace(ctx, "LiftedTrace", "LiftedTrace.cfg", tp, explain=False)
+            if r2["accepted"]:
+                raise MachineryError("non-reproducible rejection: event %d of %s was rejected, its re-execution (%s) is accepted" % (rj["idx"] + 1, rj["path"], sp))
+        what = "call crashed / did not return (%s): %s" % (evj["a"].get("why"), json.dumps(evj["a"].get("call"))) if evj.get("op") == "Crash" else rj["line"][:700]
+        ctx.violation("trace rejected by LiftedTrace at event %d of %s: %s ; spec expected: %s" % (
+            rj["idx"] + 1, os.path.basename(rj["path"]), what, rj["expected"][:1200]), replay_lines=replay_lines)
+    for k, (n, rj) in sorted(adv.items())[:6]:
+        ctx.drift.append("a housekeeping call (construction variant / free, rvalue, conversion or stream accessor / assignment / swap: documented "
+                         "class behaviour, not in the property sentence) does not behave as Lifted.tla says, %d time(s): %s ; spec expected: %s" % (
+                             n, rj["line"][:300], rj["expected"][:300]))
 
 
 def nominal_drift(ctx, traces):
@@ -542,7 +1200,7 @@ def nominal_drift(ctx, traces):
                     e = json.loads(line)
                 except Exception:
                     continue
-                if e["op"] in ("Binary", "Ternary", "Compound") and e["res"]["has"] and e["res"]["d"] != 1 \
+                if e["op"] in ("Binary", "Ternary", "Compound") and e["res"]["has"] and e["res"]["d"] != 1 and e["res"]["val"] != NAV \
                         and not e["st"]["r"][e["a"]["i"] - 1]["kind"].startswith("d") and not e["st"]["r"][e["a"]["j"] - 1]["kind"].startswith("d"):
                     odd.setdefault((e["op"], e["a"]["f"], e["res"]["d"]), 0)
                     odd[(e["op"], e["a"]["f"], e["res"]["d"])] += 1
@@ -552,9 +1210,33 @@ def nominal_drift(ctx, traces):
 
 def replay(ctx, path):
     lines = [l for l in core.read_ndjson(path) if "_meta" not in l]
-    drv = build_driver(ctx)
+    if lines and "probe" in lines[0]:
+        t = parse_ops_def()
+        pr = lines[0]["probe"]
+        pdir = ctx.sub("probes")
+        p = os.path.join(pdir, "replay.cpp")
+        if pr["op"] == "core":
+            src = CORE_PROBE
+        elif pr["op"] in ("select", "value_or"):
+            print("re-run the check: select / value_or probes are compiled as one unit"); return 2
+        else:
+            unit = [u for u in probe_units(t) if u[0] == pr["op"]][0]
+            src, _ = probe_tu(unit, only=pr.get("kinds"))
+        with open(p, "w") as f:
+            f.write(src)
+        rc, out = compile_probe(ctx, p)
+        if rc == 0:
+            print("replay accepted: the overload compiles now"); return 0
+        print("VIOLATION property=C04 replay=%s" % path)
+        print("  still does not compile: " + " | ".join(l.strip() for l in out.splitlines() if "error" in l)[:600])
+        return 1
+    clang = any(l.get("_meta", {}).get("build") == "clang" for l in core.read_ndjson(path) if "_meta" in l)
+    try:
+        drv = build_driver(ctx, tag="_clang", cxx="clang++", opt="-O2") if clang else build_driver(ctx)
+    except BuildFailed as e:
+        raise MachineryError("harness does not build: %s" % e.out[-3000:])
     sp, tp = os.path.join(ctx.work, "replay.script"), os.path.join(ctx.work, "replay.ndjson")
-    write_script(sp, lines)
+    write_script(sp, script_form(lines))
     run_script(ctx, drv, sp, tp)
     r = core.validate_trace(ctx, "LiftedTrace", "LiftedTrace.cfg", tp)
     if r["accepted"]:
@@ -567,17 +1249,23 @@ def replay(ctx, path):
 
 def selftest(ctx):
     """Binding self-test: a recorded trace is accepted; the same trace with one corrupted field (a value, a
-    presence flag, an evaluation count) or one removed event is rejected at exactly that line."""
+    presence flag, an evaluation count, the result of the underlying double operation, a shared cell) or one
+    removed event is rejected at exactly that line; a crashing call ends in a Crash event and the driver goes on."""
     t = parse_ops_def()
-    drv = build_driver(ctx)
+    try:
+        drv = build_driver(ctx)
+    except BuildFailed as e:
+        raise MachineryError("harness does not build: %s" % e.out[-3000:])
     lines = random_script(ctx.seed, t, 8, 50)
     sp, tp = os.path.join(ctx.work, "st.script"), os.path.join(ctx.work, "st.ndjson")
     write_script(sp, lines)
     run_script(ctx, drv, sp, tp)
     rec = [l for l in open(tp).read().splitlines() if l.strip()]
-    idx = [i for i, l in enumerate(rec) if '"op":"Binary"' in l and '"has":true' in l.split('"res"')[1].split('"st"')[0]
+    resof = lambda l: l.split('"res"')[1].split('"st"')[0]
+    idx = [i for i, l in enumerate(rec) if '"op":"Binary"' in l and '"has":true' in resof(l)
            and '"d":0},"res":{"kind":"opt"' in l][2]
-    miss = [i for i, l in enumerate(rec) if l.split('"res"')[1].split('"st"')[0].find('"has":false') >= 0 and '"op":"Binary"' in l][0]
+    miss = [i for i, l in enumerate(rec) if resof(l).find('"has":false') >= 0 and '"op":"Binary"' in l and '"kind":"d' not in resof(l)][0]
+    dbl = [i for i, l in enumerate(rec) if '"op":"Binary"' in l and '"has":true' in resof(l) and '"kind":"dopt"' in resof(l)][0]
 
     def check(name, mutated, want_line):
         p = os.path.join(ctx.work, "st-%s.ndjson" % name)
@@ -596,13 +1284,36 @@ def selftest(ctx):
     m = list(rec); m[idx] = rec[idx].replace('"res":{"kind":"opt","has":true', '"res":{"kind":"opt","has":false', 1)
     ok &= check("presence", m, idx + 1)
     m = list(rec)
-    m[miss] = re.sub(r'"evals":(\d+)', lambda x: '"evals":%d' % (int(x.group(1)) + 1), rec[miss].replace('"d":0},"st"', '"d":1},"st"', 1))
+    m[miss] = re.sub(r'"evals":(\d+)', lambda x: '"evals":%d' % (int(x.group(1)) + 1), rec[miss].replace('"d":0,"u":0},"st"', '"d":1,"u":0},"st"', 1))
     ok &= check("evaluated", m, miss + 1)
+    ed = json.loads(rec[dbl])
+    m = list(rec); m[dbl] = rec[dbl].replace('"u":%d},"st"' % ed["res"]["u"], '"u":%d},"st"' % (ed["res"]["u"] + 1), 1)
+    ok &= check("underlying", m, dbl + 1)
     m = list(rec); del m[idx]
     ok &= check("removed-event", m, idx + 1)
+    # a crash (division by a present zero aborts the counting operand type) must not lose the next execution
+    crash = [ev("Reset", n=2), ev("Load", i=1, how="opt2", has=True, v=4), ev("Load", i=2, how="opt2", has=True, v=0),
+             ev("Binary", f="div", i=1, j=2, d=0), ev("Reset", n=2), ev("Load", i=1, how="opt2", has=True, v=4)]
+    sp2, tp2 = os.path.join(ctx.work, "st-crash.script"), os.path.join(ctx.work, "st-crash.ndjson")
+    write_script(sp2, crash)
+    n = run_script(ctx, drv, sp2, tp2)
+    got = [json.loads(l)["op"] for l in open(tp2) if l.strip()]
+    good = n == 1 and got == ["Reset", "Load", "Load", "Crash", "Reset", "Load"]
+    print("selftest crash          driver restarted %d time(s), trace %s  %s" % (n, got, "ok" if good else "FAILED"))
+    ok &= good
+    r = core.validate_trace(ctx, "LiftedTrace", "LiftedTrace.cfg", tp2, explain=False)
+    good = (not r["accepted"]) and r["fail_line"] == 3
+    print("selftest crash-event    rejected at line %s  %s" % (r.get("fail_line", -1) + 1, "ok" if good else "FAILED"))
+    ok &= good
+    # the overload probes (used only when the harness does not build) must all compile where the harness builds
+    failing, core_ok = probe_overloads(ctx, t)
+    good = core_ok and not failing
+    print("selftest probes         %d probe units compiled, %d failing  %s" % (ctx.notes.get("overload_probes_compiled", 0), len(failing), "ok" if good else "FAILED: %s" % failing[:3]))
+    ok &= good
     return 0 if ok else 2
 
 
+# ------------------------------------------------------------------ the check
 def run(ctx):
     from concurrent.futures import ThreadPoolExecutor
     q = ctx.quick
@@ -621,22 +1332,36 @@ def run(ctx):
     ctx.notes["lifted_operations_in_table"] = nops
 
     # ---- build the harness in the background while TLC runs
-    pool = ThreadPoolExecutor(max_workers=2)
-    fut_drv = pool.submit(build_driver, ctx)
+    pool = ThreadPoolExecutor(max_workers=3)
+
+    def build_main():
+        try:
+            return build_driver(ctx), None
+        except BuildFailed as e:
+            return None, e.out
+    fut_drv = pool.submit(build_main)
+    fut_clang = None
+    if not q:
+        # a second build with the other compiler and optimisation on (the presence tests are branches an optimiser may reorder)
+        def build_clang():
+            try:
+                return build_driver(ctx, tag="_clang", cxx="clang++", opt="-O2"), None
+            except BuildFailed as e:
+                return None, e.out
+        fut_clang = pool.submit(build_clang)
 
     # ---- 1. L1 model checking (multi-step, small values, theorems of the spec) runs in the background
     def model_check():
         return core.tlc_model_check(ctx, "LiftedMC", "Lifted_mc.cfg" if q else "Lifted_mc_thorough.cfg",
-                                    "L1 multi-step exploration: propagation, never-evaluated, equality/select/value_or laws",
-                                    coverage=not q, workers=4 if q else 6, timeout=1500)
+                                    "L1 multi-step exploration: propagation, never-evaluated, equality/select/value_or laws, shared cells coherent",
+                                    coverage=not q, workers=min(core.NCPU, 4 if q else 6), timeout=1500)
     fut_mc = pool.submit(model_check)
 
     # ---- 2. S->C: every single call, enumerated by TLC
     rnd = random.Random(ctx.seed)
-    edges = []
 
     def enumerate_calls(cfg):
-        r3 = core.tlc(ctx, "LiftedMC", cfg, name="s2c-enumerate-" + cfg[:-4], heap="8g", timeout=1500, workers=3 if q else 4)
+        r3 = core.tlc(ctx, "LiftedMC", cfg, name="s2c-enumerate-" + cfg[:-4], heap="8g", timeout=1500, workers=min(core.NCPU, 3 if q else 4))
         if r3["violated"]:
             raise MachineryError("s2c enumeration failed: %s" % r3["outfile"])
         es = emitted(r3["out"])
@@ -647,9 +1372,10 @@ def run(ctx):
                                  % (cfg, r3["distinct"] - int(m.group(1)) if m else "?", len(es), r3["outfile"]))
         r3["out"] = ""
         return cfg, es, r3
-    cfgs = ["Lifted_s2c.cfg", "Lifted_s2c_house.cfg", "Lifted_s2c_double_quick.cfg"] if q else \
-           ["Lifted_s2c_thorough.cfg", "Lifted_s2c_closures.cfg", "Lifted_s2c_house.cfg", "Lifted_s2c_double.cfg"]
-    with ThreadPoolExecutor(max_workers=4) as ex:
+    cfgs = ["Lifted_s2c.cfg", "Lifted_s2c_house.cfg", "Lifted_s2c_double_quick.cfg", "Lifted_s2c_dnum.cfg", "Lifted_s2c_mix_quick.cfg", "Lifted_s2c_alias_quick.cfg"] if q else \
+           ["Lifted_s2c_thorough.cfg", "Lifted_s2c_closures.cfg", "Lifted_s2c_house.cfg", "Lifted_s2c_double.cfg", "Lifted_s2c_dnum.cfg", "Lifted_s2c_mix.cfg", "Lifted_s2c_alias.cfg"]
+    edges = []
+    with ThreadPoolExecutor(max_workers=max(1, min(4, core.NCPU // 2))) as ex:
         for cfg, es, r3 in ex.map(enumerate_calls, cfgs):
             ctx.log("TLC %s: %d single-call transitions from %d initial register files, %.1fs" % (cfg, len(es), r3["distinct"] - len(es), r3["wall_s"]))
             ctx.cov["transitions"] += len(es)
@@ -659,47 +1385,114 @@ def run(ctx):
         ks = tuple(e["p"][int(e["l"]["a"][x]) - 1]["kind"] for x in ("i", "j", "k") if x in e["l"]["a"])
         fams.setdefault((e["l"]["op"], e["l"]["a"].get("f", e["l"]["a"].get("how", e["l"]["a"].get("path", ""))), ks), 0)
     ctx.notes["s2c_overload_families"] = len(fams)      # (call, operation, kinds of the operand registers)
-    lines, taken = edge_scripts(edges, 3, rnd)
     ctx.notes["s2c_transitions_enumerated"] = len(edges)
+
+    # ---- the harness (built in the background); if it does not build: probes, then a degraded harness
+    drv, err = fut_drv.result()
+    degraded, skip_ops, no_house = False, set(), False
+    if drv is None:
+        ctx.log("the conformance driver does not build against this tree; compiling every overload family as its own probe")
+        failing, core_ok = probe_overloads(ctx, t)
+        skip_ops.update(name for name, desc, pat, msg in failing)
+        # a handful of violations with replays: one per operation first, then further operand patterns
+        first, more, seen = [], [], set()
+        for f in failing:
+            (more if f[0] in seen else first).append(f)
+            seen.add(f[0])
+        for name, desc, pat, msg in (first + more)[:MAX_VIOLATIONS]:
+            shown = "%s(%s)" % (desc, ", ".join(KIND_CPP.get(k, k) for k in pat)) if pat else desc
+            ctx.violation("the lifted overload %s does not compile: %s" % (shown, msg),
+                          replay_lines=[{"probe": {"op": name, "kinds": list(pat) if pat else None}}])
+        ctx.notes["overloads_that_do_not_compile"] = sorted("%s%s" % (n, list(p) if p else "") for n, d, p, m in failing)[:60]
+        degraded = True
+        if core_ok and not (skip_ops & {"select", "value_or"}):
+            od = degraded_ops_def(ctx, skip_ops) if skip_ops else None
+            for nh in (False, True):
+                try:
+                    drv = build_driver(ctx, tag="_degraded%d" % nh, ops_def=od, no_house=nh)
+                    no_house = nh
+                    break
+                except BuildFailed as e2:
+                    err = e2.out
+        if drv is None:
+            pool.shutdown()
+            if not ctx.violations:
+                raise MachineryError("harness does not compile and no overload probe explains it:\n%s" % (err or "")[-4000:])
+            ctx.notes["harness_build_failed"] = (err or "")[-1500:]
+            ctx.log("no harness can be built against this tree (run-time part skipped); reporting the %d violation(s) found by the probes" % len(ctx.violations))
+            return finish(ctx, q, nops)
+        if no_house:
+            ctx.drift.append("the housekeeping calls of the harness (free / rvalue / conversion / stream accessors, writes through accessors, "
+                             "plain assignment, swap) do not compile against this tree; they are left out")
+        ctx.log("degraded harness built without %s%s: the single-call enumeration runs on it" % (sorted(skip_ops) or "nothing", ", without housekeeping calls" if no_house else ""))
+        ctx.notes["degraded_harness"] = {"without_operations": sorted(skip_ops), "without_housekeeping": no_house}
+        edges = [e for e in edges if e["l"]["a"].get("f") not in skip_ops and not (no_house and (e["l"]["op"] in HOUSE_OPS and e["l"]["a"].get("path") != "member"))]
+    else:
+        ctx.log("harness built")
+
+    lines, taken = edge_scripts(edges, 3, rnd)
+    if no_house:
+        lines = [l for l in lines if not (l["op"] == "Load" and l["a"]["how"] not in CANON_HOW.values())]
     ctx.notes["s2c_transitions_replayed"] = taken
     ctx.log("S->C: %d single calls in %d overload families -> %d script events" % (taken, len(fams), len(lines)))
     scripts = []
     for i, ch in enumerate(chunk_by_reset(lines, 8 if q else 14)):
         scripts.append(("s2c-%02d" % i, ch))
 
-    # ---- 2b. TLC simulation walks: histories, results stored back into registers
-    simdir = ctx.sub("sim")
-    nsim = 150 if q else 5000
-    core.tlc(ctx, "LiftedMC", "Lifted_sim.cfg", name="s2c-generate",
-             extra=["-generate", "file=%s/t,num=%d" % (simdir, nsim), "-depth", "25", "-seed", str(ctx.seed)], workers=1)
-    lines, nwalks = sim_scripts(simdir, 3)
+    nwalks = 0
+    if not degraded:
+        # ---- 2b. TLC simulation walks: histories, results stored back into registers
+        simdir = ctx.sub("sim")
+        nsim = 150 if q else 5000
+        core.tlc(ctx, "LiftedMC", "Lifted_sim.cfg", name="s2c-generate",
+                 extra=["-generate", "file=%s/t,num=%d" % (simdir, nsim), "-depth", "25", "-seed", str(ctx.seed)], workers=1)
+        lines, nwalks = sim_scripts(simdir, 3)
+        scripts.append(("sim", lines))
+
+        # ---- 3. C->S: seeded random expression sequences
+        nexec, nops_ = (150, 60) if q else (6000, 80)
+        lines = random_script(ctx.seed, t, nexec, nops_)
+        for i, ch in enumerate(chunk_by_reset(lines, 2 if q else 16)):
+            scripts.append(("rnd-%d" % i, ch))
+
+        # ---- 3b. the upstream tests' own call sequences, every step validated
+        scripts.append(("upstream", upstream_script()))
+
+        for fnd in findings:
+            if "probe" in fnd:
+                scripts.append(("probe-" + fnd["id"], fnd["probe"]["script"]))
     ctx.notes["s2c_simulation_walks"] = nwalks
-    scripts.append(("sim", lines))
 
-    # ---- 3. C->S: seeded random expression sequences
-    nexec, nops_ = (150, 60) if q else (6000, 80)
-    lines = random_script(ctx.seed, t, nexec, nops_)
-    for i, ch in enumerate(chunk_by_reset(lines, 2 if q else 16)):
-        scripts.append(("rnd-%d" % i, ch))
-
-    for fnd in findings:
-        if "probe" in fnd:
-            scripts.append(("probe-" + fnd["id"], fnd["probe"]["script"]))
-
-    # ---- the harness (built in the background)
-    drv = fut_drv.result()
-    ctx.log("harness built")
     traces, tdir = [], ctx.sub("traces")
+    crashes = [0]
 
-    def one(item):
+    def one(item, driver=None, suffix=""):
         name, ls = item
-        sp, tp = os.path.join(tdir, name + ".script"), os.path.join(tdir, name + ".ndjson")
+        sp, tp = os.path.join(tdir, name + suffix + ".script"), os.path.join(tdir, name + suffix + ".ndjson")
         write_script(sp, ls)
-        run_script(ctx, drv, sp, tp)
+        crashes[0] += run_script(ctx, driver or drv, sp, tp)
         return tp
-    with ThreadPoolExecutor(max_workers=8) as ex:
+    with ThreadPoolExecutor(max_workers=min(8, core.NCPU)) as ex:
         traces = list(ex.map(one, scripts))
-    ctx.log("harness ran %d scripts" % len(scripts))
+    ctx.log("harness ran %d scripts%s" % (len(scripts), " (%d crashes, driver restarted)" % crashes[0] if crashes[0] else ""))
+    ctx.notes["driver_restarts_after_crash"] = crashes[0]
+
+    # ---- thorough: the same single-call scripts on a clang++ -O2 build
+    cdrv = None
+    if fut_clang is not None:
+        cdrv, cerr = fut_clang.result()
+        if cdrv is None:
+            if drv is not None and not degraded:
+                ctx.violation("the conformance driver builds with g++ but not with clang++ -O2 against this tree: %s" % (
+                    " | ".join(l.strip() for l in (cerr or "").splitlines() if "error" in l)[:800]), replay_lines=[{"build": "clang++ -O2"}])
+        else:
+            s2c = [s for s in scripts if s[0].startswith("s2c-")]
+            with ThreadPoolExecutor(max_workers=min(8, core.NCPU)) as ex:
+                traces += list(ex.map(lambda it: one(it, cdrv, "-clang"), s2c))
+            ctx.notes["second_build"] = "clang++ -O2: %d single-call scripts" % len(s2c)
+            ctx.log("clang++ -O2 harness ran %d scripts" % len(s2c))
+    pool.shutdown()
+
     for name, ls in scripts:
         ctx.cov["traces_validated_against_impl"] += sum(1 for l in ls if l["op"] == "Reset")
     ctx.sample({"script": [json.dumps(x) for x in scripts[0][1][:10]]})
@@ -714,12 +1507,14 @@ def run(ctx):
                 per_fun[l["a"]["f"]] = per_fun.get(l["a"]["f"], 0) + 1
     ctx.notes["calls_per_action"] = per_action
     never = sorted(x[0] for v in t.values() for x in v if x[0] not in per_fun)
-    never += sorted(a for a in ("Load", "Unary", "Binary", "Ternary", "Compare", "Compound", "Select", "ValueOr", "Get", "SetFlag",
+    never += sorted(a for a in ("Load", "Alias", "Unary", "Binary", "Ternary", "Compare", "Compound", "Select", "ValueOr", "Get", "SetFlag",
                                 "SetVal", "Poke", "AssignVal", "AssignReg", "Swap") if a not in per_action)
     ctx.notes["operations_never_called"] = never
 
     # ---- validate every trace against L1
-    validate(ctx, traces, findings)
+    v = Validator(ctx, findings)
+    rejections = v.run(traces)
+    report(ctx, rejections, {"gcc": drv, "clang": cdrv})
 
     # ---- the model-checking job (ran in the background)
     r = fut_mc.result()
@@ -728,24 +1523,36 @@ def run(ctx):
     if not q:
         cov = {k: v for k, v in r.get("coverage", {}).items() if k.startswith("N") and k != "Next"}
         ctx.notes["l1_action_coverage"] = cov
-        ctx.notes["vacuous_actions"] = sorted(k for k, v in cov.items() if v[1] == 0) + never
+        ctx.notes["vacuous_actions"] = sorted(k for k, v in cov.items() if v[1] == 0) + (never if not degraded else [])
     nominal_drift(ctx, traces)
     ctx.cov["evaluations"] = ctx.cov["events_validated"]
     ctx.cov["distinct_nontrivial"] = len(fams)
     ctx.log("validated %d events in %d traces (%d executions)" % (ctx.cov["events_validated"], len(traces), ctx.cov["traces_validated_against_impl"]))
+    return finish(ctx, q, nops)
 
+
+def finish(ctx, q, nops):
     return core.finish(
         ctx, "model_checking",
         rule="TLC enumerates every single lifted call of Lifted.tla: each of the %d table operations x every kind pattern "
-             "(plain/int/opt/optref%s/masked/mref in every argument position, families not mixed) x every presence pattern x "
-             "operand values %s; each transition is one call on the real xoptional/xmasked_value objects over a counting operand "
-             "type and TLC compares has/visible, value, evaluation-counter delta, all registers and reference-closure referents. "
-             "Plus TLC simulation walks and seeded random expression sequences (values up to +-46000, results stored back)."
-             % (nops, "" if q else "/optcr/optvr", "{-1,0,2}" if q else "{-46000,-1,0,2,3}"),
+             "(plain/int/opt/optref%s/masked/mref in every argument position, families not mixed; double operands; masked optionals "
+             "xmasked_value<xoptional<T>> beside bare xoptional<T>; two reference closures over one referent) x every presence pattern x "
+             "operand values %s (doubles: small integers, NaN, 0.5, +inf%s); each transition is one call on the real "
+             "xoptional/xmasked_value objects over a counting operand type and TLC compares has/visible, value, evaluation-counter delta, "
+             "all registers, reference-closure referents and shared cells; for doubles the value must also be what the same operation gives "
+             "on the underlying doubles. Plus TLC simulation walks and seeded random expression sequences (values up to +-46000, results stored back)."
+             % (nops, "" if q else "/optcr/optvr", "{-1,0,2}" if q else "{-46000,-1,0,2,3}", "" if q else ", -inf, 1/3, 1e308, a denormal, -0.0"),
         assumptions=["the operand type Probe (harness/lifted/probe.hpp) and Lifted.tla's Apply1/2/3 define the same toy algebra",
-                     "real floating-point operands are exercised with small integers and NaN only (double registers, a subset of "
-                     "integer-exact operations: DFuns in Lifted.tla); infinities and inexact results are not",
-                     "xoptional x xmasked_value mixes (xmasked_value<xoptional<T>>) are not modelled"],
+                     "for double operands the harness records, next to every lifted result, the result of the same operation on the underlying "
+                     "doubles (std:: functions / built-in operators on plain doubles, independent of xtl); L1 demands equality with it, and computes "
+                     "the IEEE result itself for small integer and NaN operands of the integer-exact operations (DFuns); inexact values are compared "
+                     "through a 27-bit hash of their bit pattern; +0.0 and -0.0 are not distinguished",
+                     "verdict-relevant calls: the lifted operations the statement names, construction from (value, flag), the member accessors, the "
+                     "caller's writes to referents; other constructors / factories / converting constructors, free / rvalue / conversion / stream "
+                     "accessors, plain assignment and swap are advisory (MODEL-DRIFT); validation resumes behind an advisory rejection",
+                     "configurations: g++ -O0 with AddressSanitizer in both tiers, clang++ -O2 (single-call scripts) in the thorough tier; NDEBUG and "
+                     "XTL_NO_EXCEPTIONS do not occur in the two headers; json (xjson.hpp) and the implicit xmasked_value -> value_type / xoptional "
+                     "conversion are not modelled"],
         exhaustive=False)
 
 
